@@ -14,6 +14,8 @@ import (
 	"golang.org/x/tools/go/ssa"
 )
 
+var hiddenTags = map[string]bool{} // signature tokens: their bytes mean nothing
+
 const preludeText = `
 func vInt(tag string) int                                  { return 0 }
 func vBool(tag string) bool                                { return false }
@@ -34,6 +36,7 @@ func vAssume(c bool)                                       {}
 func vAssert(c bool, id string)                            {}
 func vKnown(c bool, id string)                             {}
 func vCover(id string)                                     {}
+func vCoverIf(c bool, id string)                           {}
 func vDeploy(contract string, args ...any)                 {}
 func vSign(acct []byte, present bool)                      {}
 func vInvoke(contract, method string, args ...any) (bool, any) { return false, nil }
@@ -74,6 +77,13 @@ func isHarnessFn(fn *ssa.Function) bool {
 	}
 	f := fn.Prog.Fset.Position(fn.Pos()).Filename
 	return strings.Contains(f, "zz_verif_")
+}
+
+func inHarnessFile(fn *ssa.Function) bool {
+	if fn == nil || fn.Prog == nil {
+		return false
+	}
+	return strings.Contains(fn.Prog.Fset.Position(fn.Pos()).Filename, "zz_verif_")
 }
 
 func (e *Engine) allVars() []*T {
@@ -246,6 +256,7 @@ func (e *Engine) vcall(fn *ssa.Function, s *St, in *ssa.Call, ip int, short stri
 			return set(constBytes(string(tagAccount(tagName).PrivateKey().Sign([]byte(m)))))
 		}
 		b := e.namedBytes(tag(), 64)
+		hiddenTags[tag()] = true
 		e.sigWho[b.b[0].id] = who
 		e.sigMsg[b.b[0].id] = args[2].(BytesV)
 		return set(b)
@@ -269,12 +280,19 @@ func (e *Engine) vcall(fn *ssa.Function, s *St, in *ssa.Call, ip int, short stri
 	case "vKernel": // call an unexported function of the harness package; a panic is reported as ok=false
 		nm := cStr(args[0])
 		kargs := e.listArgs(s.State, args[1])
-		if e.model != nil {
-			panic("replay: vKernel has no VM counterpart (use the public API in the harness)")
-		}
 		kf := e.pkg.Func(nm)
 		if kf == nil {
 			panic("kernel " + nm + " not found in package " + e.pkg.Pkg.Name())
+		}
+		if e.model != nil { // the kernel runs on the real VM through a wrapper contract
+			goArgs := make([]any, len(kargs))
+			for i, a := range kargs {
+				goArgs[i] = toGoHeap(a, s.State)
+			}
+			ok, res := e.world.kernelCall(e.harnessPkg, kf, goArgs)
+			e.rlog(fmt.Sprintf("  kernel %s(%s) -> ok=%v", nm, showArgs(goArgs), ok))
+			s.env[in] = TupleV{[]Value{BoolV{B(ok)}, e.allocLits(s.State, res)}}
+			return nil, nil, true
 		}
 		outs := e.runFrame(kf, kargs, s.State)
 		next, fin := e.continueWith(s, in, ip, outs, func(o Out) (Value, bool) {
@@ -397,10 +415,19 @@ func (e *Engine) vcall(fn *ssa.Function, s *St, in *ssa.Call, ip int, short stri
 		}
 		s.State.pc = And(s.pc, c)
 		return set(UnitV{})
-	case "vCover":
-		id := tag()
+	case "vCover", "vCoverIf":
+		var id string
+		cond := tTrue
+		if short == "vCoverIf" {
+			id = cStr(args[1])
+			cond = args[0].(BoolV).t
+		} else {
+			id = tag()
+		}
 		if e.model != nil {
-			e.replayCovers[id]++
+			if cond.isC() && cond.b {
+				e.replayCovers[id]++
+			}
 			return set(UnitV{})
 		}
 		ob := e.obligation(id, "cover")
@@ -408,7 +435,7 @@ func (e *Engine) vcall(fn *ssa.Function, s *St, in *ssa.Call, ip int, short stri
 			return set(UnitV{})
 		}
 		t0 := nowMs()
-		r, m := e.solver.checkX(s.pc, nil, e.allVars(), true)
+		r, m := e.solver.checkX(s.pc, []*T{cond}, e.allVars(), true)
 		e.stats.queries++
 		ob.Paths++
 		ob.Ms += nowMs() - t0
